@@ -7,6 +7,7 @@ import LogosModel.Equiv
 import LogosModel.Priority
 import LogosModel.Attr
 import LogosModel.Bump
+import LogosModel.Strip
 import LogosModel.Source
 import Std.Data.HashSet
 /-!
@@ -349,6 +350,38 @@ def readAnswer (hexsrc off size : String) : String :=
   | some c => s!"some:{hexOf c}"
   | none => "none"
 
+/-! ## C17: derive-list rewrite and CLI write/check models -/
+
+def stripTok (s : String) : Option Strip.Tok :=
+  match s.splitOn ":" with
+  | ["i", n] => some (.ident n)
+  | ["c"] => some .comma
+  | ["p", n] => some (.punct (Char.ofNat n.toNat!))
+  | ["o", n] => some (.other n.toNat!)
+  | _ => none
+
+def stripTokStr : Strip.Tok → String
+  | .ident n => "i:" ++ n
+  | .comma => "c"
+  | .punct c => s!"p:{c.toNat}"
+  | .other n => s!"o:{n}"
+
+def stripAnswer (toks : List String) : String :=
+  let ts := toks.filterMap stripTok
+  if ts.length != toks.length then "BADTOK" else
+  " ".intercalate ((Strip.stripFixed ts).map stripTokStr)
+
+def strOfHex (h : String) : List Char := (String.fromUTF8! (ByteArray.mk ((unhex h).map fun (n : Nat) => n.toUInt8).toArray)).toList
+
+def cliAnswer (check file output : String) : String :=
+  let f : Option (List Char) := if file == "none" then none else some (strOfHex file)
+  let r := Strip.cliRun f (strOfHex output) (check == "1")
+  let st := match r.1 with | .ok => "ok" | .failed => "failed"
+  let fs := match r.2 with
+    | none => "none"
+    | some c => hexOf ((String.ofList c).toUTF8.toList.map fun (b : UInt8) => b.toNat)
+  s!"{st} {fs}"
+
 partial def run (h : IO.FS.Stream) (out : IO.FS.Stream) (cur : Case) : IO Unit := do
   let line ← h.getLine
   if line.isEmpty then return ()
@@ -378,6 +411,12 @@ partial def run (h : IO.FS.Stream) (out : IO.FS.Stream) (cur : Case) : IO Unit :
     run h out cur
   | ["Q", "READ", hexsrc, off, size] =>
     out.putStrLn s!"{cur.name} READ {hexsrc} {off} {size} : {readAnswer hexsrc off size}"
+    run h out cur
+  | "Q" :: "STRIPDERIVE" :: toks =>
+    out.putStrLn s!"{cur.name} STRIPDERIVE {" ".intercalate toks} : {stripAnswer toks}"
+    run h out cur
+  | ["Q", "CLI", check, file, output] =>
+    out.putStrLn s!"{cur.name} CLI {check} {file} {output} : {cliAnswer check file output}"
     run h out cur
   | "Q" :: "ATTR" :: flag :: toks =>
     out.putStrLn s!"{cur.name} ATTR {flag} {" ".intercalate toks} : {attrAnswer flag toks}"
